@@ -284,6 +284,20 @@ def ctl_replay(ctx, rep, pid):
     for ti, t in enumerate(traces):
         if not t["constructed"] or t["hdr"] is None:
             continue
+        # loop structure: the passes the tracer sees (one ITER event per refresh of the search bounds) against an independent count of
+        # passes (writes of optim_state['iter']: one per pass, one more per completed poll)
+        marks = (t.get("final") or {}).get("iter_marks")
+        n_iter_ev = sum(1 for k, _ in t["events"] if k == "ITER")
+        case0 = {"kind": "ctl_run", "spec": t["spec"], "kw": {k: t[k] for k in ("ei_script", "es_script") if t.get(k)}}
+        if marks is not None and t["error"] is None and not (n_iter_ev <= marks <= 2 * n_iter_ev):
+            rep.disagree("Ctl.step ~ optimize loop (one refresh of the search mesh and bounds per pass)",
+                         f"the main loop made {marks} writes of optim_state['iter'] but refreshed the search bounds {n_iter_ev} times; {spec_tag(t['spec'])}", case0)
+        if pid == "C13":
+            # the meshes the poll steps actually worked with (as handed to the direction generator): the search mesh never exceeds the poll mesh
+            for k, e in t["events"]:
+                if k == "DIRS" and e["sms"] > e["ms"]:
+                    rep.violation("search_mesh_le_mesh", "bads.py:optimize", f"a poll step ran with search mesh {e['sms']} > poll mesh {e['ms']}; {spec_tag(t['spec'])}", case0)
+                    break
         x = ctl_extract(t)
         if x is None:
             continue
@@ -874,6 +888,11 @@ def _c05_predicates(rep, t, x, case, tag):
         want = abs(y1 - y2) > t["hdr"]["opts"]["tol_noise"]
         if want != noisy:
             rep.violation("noise_detection", "bads.py:_init_mesh_", f"|y1-y2|={abs(y1 - y2)} tol_noise={t['hdr']['opts']['tol_noise']} but target treated as {'stochastic' if noisy else 'deterministic'}; {tag}", case)
+    elif sp["mode"] in ("det", "auto") and t["hdr"].get("unc0", 0) < 1 and int(t["hdr"]["opts"]["max_fun_evals"]) > 1:
+        # a target not DECLARED noisy is evaluated twice at the starting point (the second time unrecorded), whatever spelling the
+        # uncertainty_handling option was left / set to False with
+        rep.violation("noise_detection", "bads.py:_init_mesh_", "the target is not declared noisy but the second evaluation at the starting point (the noise test) was not made; "
+                      f"target treated as {'stochastic' if noisy else 'deterministic'}; {tag}", case)
     if not noisy:
         return
     if "stochastic" not in str(res["target_type"]):
@@ -1058,7 +1077,7 @@ def det_extract(t):
 def det_replay(ctx, rep):
     """Every deterministic traced run through Det.step: evaluated points, derived improvements, incumbent and counters per iteration."""
     traces = [t for t in get_pool(ctx) if t["constructed"] and t["hdr"] is not None and t["spec"]["mode"] == "det" and t.get("final")
-              and t["final"].get("unc") == 0 and not t.get("ei_script") and not t.get("es_script")]
+              and t["final"].get("unc") == 0 and not t.get("ei_script") and not t.get("es_script") and not t.get("add_faults")]
     items, skipped = [], {}
     for t in traces:
         d = det_extract(t)
